@@ -1,6 +1,8 @@
 import NfcVerif.Lemmas.FnBridgeTagCmd
 import NfcVerif.Lemmas.AdvT3
 import NfcVerif.Model.T3
+import NfcVerif.Lemmas.T3
+import NfcVerif.Model.T3Format
 /-!
 # Bridge theorems, group TagCmd (`nfc/tag/tt1.py`, `tt2.py`, `tt3.py` -> `Gen/FnTagCmd.lean`)
 
@@ -752,6 +754,252 @@ theorem t3_sys_bridge (sensf : Bytes) :
       omega
     simp only [h2, if_false, Py.bind_error, this]
 
+/-! ## third batch: command builders with list displays, the attribute block, the polling result -/
+
+/-- `Type1Tag.read_block`: block number check and READ8 command, for every int -/
+theorem t1_read_block_cmd_bridge (block : Int) (uid : Bytes) : Gen.Fn.t1_read_block_cmd block uid = t1Read8 block uid := by
+  unfold Gen.Fn.t1_read_block_cmd t1Read8
+  by_cases h : block < 0 ∨ block > 255
+  · simp only [h, if_true]
+  · simp only [h, if_false]
+    obtain ⟨n, rfl⟩ := Int.eq_ofNat_of_zero_le (by omega : 0 ≤ block)
+    rw [zeros8_gen]
+    have := mkBytes_cast [2, n, 0, 0, 0, 0, 0, 0, 0, 0] (by intro x hx; simp at hx; omega)
+    simp only [List.map_cons, List.map_nil] at this
+    show (mkBytes [((2 : Nat) : Int), (n : Int), ((0 : Nat) : Int), ((0 : Nat) : Int), ((0 : Nat) : Int), ((0 : Nat) : Int),
+      ((0 : Nat) : Int), ((0 : Nat) : Int), ((0 : Nat) : Int), ((0 : Nat) : Int)] >>= fun t1 => Except.ok (t1 ++ uid)) = _
+    rw [this]
+    simp [TagCmdRef.zeros8]
+
+/-- `Type1Tag.read_segment`: segment number check and RSEG command, for every int -/
+theorem t1_read_segment_cmd_bridge (segment : Int) (uid : Bytes) : Gen.Fn.t1_read_segment_cmd segment uid = t1Rseg segment uid := by
+  unfold Gen.Fn.t1_read_segment_cmd t1Rseg
+  by_cases h : segment < 0 ∨ segment > 15
+  · simp only [h, if_true]
+  · simp only [h, if_false]
+    obtain ⟨n, rfl⟩ := Int.eq_ofNat_of_zero_le (by omega : 0 ≤ segment)
+    rw [zeros8_gen, show (4 : Int) = ((4 : Nat) : Int) from rfl, shl_ofNat, Nat.shiftLeft_eq]
+    have := mkBytes_cast [16, n * 2 ^ 4, 0, 0, 0, 0, 0, 0, 0, 0] (by intro x hx; simp at hx; omega)
+    simp only [List.map_cons, List.map_nil] at this
+    show (mkBytes [((16 : Nat) : Int), ((n * 2 ^ 4 : Nat) : Int), ((0 : Nat) : Int), ((0 : Nat) : Int), ((0 : Nat) : Int), ((0 : Nat) : Int),
+      ((0 : Nat) : Int), ((0 : Nat) : Int), ((0 : Nat) : Int), ((0 : Nat) : Int)] >>= fun t1 => Except.ok (t1 ++ uid)) = _
+    rw [this]
+    simp [TagCmdRef.zeros8]
+
+
+example : Gen.Fn.t1_read_block_cmd 15 [1, 2, 3, 4] = .ok [0x02, 15, 0, 0, 0, 0, 0, 0, 0, 0, 1, 2, 3, 4] := by decide +kernel
+example : Gen.Fn.t1_read_segment_cmd 3 [1, 2, 3, 4] = .ok [0x10, 0x30, 0, 0, 0, 0, 0, 0, 0, 0, 1, 2, 3, 4] := by decide +kernel
+example : Gen.Fn.t1_read_segment_cmd 16 [1, 2, 3, 4] = .error .value := by decide +kernel
+
+/-- one round of the C08 segment loop entirely in regenerated functions: segment number, RSEG command, answer check -/
+theorem gen_segLoop (t : Adv.Tag) (uid : Bytes) (stop f : Nat) (s : Adv.S1) (h : ¬ s.cache.length ≥ stop) :
+    Adv.segLoop t uid stop (f + 1) s =
+      match Gen.Fn.t1_read_segment_cmd (Gen.Fn.t1_segment_of s.cache.length) uid with
+      | .error e => (.error e, s)
+      | .ok cmd =>
+        match Adv.trans1 t cmd s with
+        | (.error e, s1) => (.error e, s1)
+        | (.ok rsp, s1) =>
+          match Gen.Fn.t1_read_segment_rsp rsp with
+          | .error e => (.error e, s1)
+          | .ok d => Adv.segLoop t uid stop f { s1 with cache := s1.cache ++ d } := by
+  rw [gen_segLoop_segment t uid stop f s h, t1_read_segment_cmd_bridge]
+
+/-- the READ8 command of `Adv.stageB` is the regenerated one -/
+theorem gen_stageB_cmd : Gen.Fn.t1_read_block_cmd 15 uid = .ok ([0x02, 15] ++ Adv.zeros8 ++ uid) := by
+  rw [t1_read_block_cmd_bridge]; simp [t1Read8, TagCmdRef.zeros8, Adv.zeros8]
+
+/-- `Type3Tag.polling`: length check and result tuple (`Adv.pollingTuple`) -/
+theorem t3_polling_rsp_bridge (rc : Int) (d : Bytes) :
+    Gen.Fn.t3_polling_rsp rc d = (t3PollingLen rc d >>= fun _ => .ok (Val.tuple ((t3PollingParts d).map Val.bytes))) := by
+  unfold Gen.Fn.t3_polling_rsp t3PollingLen t3PollingParts
+  have s1 : slice d 0 8 = d.take 8 := by have := slice_nat d 0 8; simpa [sliceN] using this
+  have s2 : slice d 8 16 = (d.drop 8).take 8 := slice_nat d 8 16
+  have s3 : slice d 16 18 = (d.drop 16).take 2 := slice_nat d 16 18
+  rw [s1, s2, s3, len_eq]
+  by_cases h : (d.length : Int) ≠ (if rc = 0 then 16 else 18)
+  · rw [if_pos h, if_pos h]; rfl
+  · rw [if_neg h, if_neg h]
+    simp only [Py.bind_ok]
+    by_cases h16 : d.length = 16
+    · have : (d.length : Int) = 16 := by omega
+      simp [h16, this]
+    · have : ¬ (d.length : Int) = 16 := by omega
+      simp [h16, this]
+
+
+/-- the tuple of the C08 model (`Adv.pollingTuple`) -/
+theorem gen_polling_parts (d : Bytes) :
+    t3PollingParts d = if d.length = 16 then [d.take 8, (d.drop 8).take 8] else [d.take 8, (d.drop 8).take 8, (d.drop 16).take 2] := rfl
+
+/-- `_write_attribute_data`: the attribute block is `T3.encodeAttr` -/
+theorem t3_wr_attr_bridge (a : T3.Attr) (h : T3.AttrRange a) :
+    Gen.Fn.t3_wr_attr a.ver a.nbr a.nbw a.nmaxb a.writef a.rwflag a.ln = .ok (T3.encodeAttr a) := by
+  obtain ⟨h1, h2, h3, h4, h5, h6, h7⟩ := h
+  obtain ⟨ver, nbr, nbw, nmaxb, writef, rwflag, ln⟩ := a
+  simp only at h1 h2 h3 h4 h5 h6 h7
+  unfold Gen.Fn.t3_wr_attr T3.encodeAttr
+  rw [zeros16']
+  simp only [Py.bind_ok, lit_cast]
+  simp only [setB_nat, setSlice_nat, slice_nat, sliceN, pack_Hbe', pack_Ibe24, sum_ints, h1, h2, h3, h4, h5, h6, h7, Py.bind_ok,
+    List.length_cons, List.length_nil, List.set, List.take, List.drop, List.cons_append, List.nil_append, List.foldl,
+    Nat.lt_add_one, Nat.le_refl, Nat.reduceAdd, Nat.reduceLT, Nat.reduceLeDiff, Nat.reduceSub, List.take_succ_cons, List.take_zero,
+    List.drop_succ_cons, List.drop_zero, Nat.zero_add, Nat.add_zero]
+  rw [pack_Hbe' _ (by omega)]
+  simp only [Py.bind_ok, List.append_nil]
+
+
+/-- `Type3Tag._format`: the attribute block is `T3.formatAttr` -/
+theorem t3_fmt_attr_bridge (version nbr nbw nmaxb : Nat) (h1 : version < 256) (h2 : nbr < 256) (h3 : nbw < 256) (h4 : nmaxb < 65536) :
+    Gen.Fn.t3_fmt_attr version nbr nbw nmaxb = .ok (T3.formatAttr version nbr nbw nmaxb) := by
+  unfold Gen.Fn.t3_fmt_attr T3.formatAttr T3.encodeAttr
+  rw [zeros16']
+  have hw : (if ((nbw : Int) > 0) then (1 : Int) else 0) = (((if nbw > 0 then 1 else 0 : Nat)) : Int) := by
+    by_cases h : nbw > 0
+    · have : (nbw : Int) > 0 := by omega
+      simp [h, this]
+    · have : ¬ (nbw : Int) > 0 := by omega
+      simp [h, this]
+  rw [hw]
+  have hw2 : (if nbw > 0 then 1 else 0 : Nat) < 256 := by split <;> omega
+  generalize (if nbw > 0 then 1 else 0 : Nat) = rwf at *
+  simp only [Py.bind_ok, lit_cast]
+  rw [pack_BBBH version nbr nbw nmaxb h1 h2 h3 h4]
+  py_list
+  rw [pack_Hbe' _ (by omega)]
+  simp only [Py.bind_ok, List.append_nil]
+  congr 1
+
+
+/-- `_read_attribute_data` on a 16 octet block: checksum test and field extraction are `T3.decodeAttr` -/
+theorem t3_rd_attr_bridge (b0 b1 b2 b3 b4 b5 b6 b7 b8 b9 b10 b11 b12 b13 b14 b15 : Nat) :
+    (Gen.Fn.t3_rd_csum [b0, b1, b2, b3, b4, b5, b6, b7, b8, b9, b10, b11, b12, b13, b14, b15] >>= fun bad =>
+      if bad then .ok none else
+        Gen.Fn.t3_rd_attr [b0, b1, b2, b3, b4, b5, b6, b7, b8, b9, b10, b11, b12, b13, b14, b15] >>= fun r =>
+          .ok (some (⟨r.1.toNat, r.2.1.toNat, r.2.2.1.toNat, r.2.2.2.1.toNat, r.2.2.2.2.1.toNat, r.2.2.2.2.2.1.toNat,
+            r.2.2.2.2.2.2.toNat⟩ : T3.Attr)))
+      = T3.decodeAttr [b0, b1, b2, b3, b4, b5, b6, b7, b8, b9, b10, b11, b12, b13, b14, b15] := by
+  unfold Gen.Fn.t3_rd_csum Gen.Fn.t3_rd_attr T3.decodeAttr
+  simp only [lit_cast, ← Int.natCast_add, slice_nat, sliceN, List.take, List.drop, List.cons_append, List.nil_append, needExact_nat, sum_ints,
+    List.foldl, List.length_cons, List.length_nil, Nat.reduceAdd, Nat.reduceSub, if_true, Py.bind_ok, ube_lit1, at0_cons_zero,
+    at0_cons_succ, Nat.zero_add, List.take_succ_cons, List.take_zero, List.drop_succ_cons, List.drop_zero]
+  have u1 : ube [b14, b15] ((0 : Nat) : Int) 2 = ((b14 * 256 + b15 : Nat) : Int) := ube_pair b14 b15
+  have u2 : ube [b0, b1, b2, b3, b4] ((3 : Nat) : Int) 2 = ((b3 * 256 + b4 : Nat) : Int) := by simp [ube, beNat]
+  have u3 : ube [0, b11, b12, b13] ((0 : Nat) : Int) 4 = (((b11 * 256 + b12) * 256 + b13 : Nat) : Int) := by simp [ube, beNat]
+  rw [u1, u2, u3]
+  simp only [Int.toNat_natCast, ne_eq, Int.natCast_inj, decide_not, Bool.not_eq_true', decide_eq_false_iff_not]
+
+
+/-- a block shorter than 16 octets: `struct.error` like `T3.decodeAttr` -/
+theorem t3_rd_csum_short (d : Bytes) (h : d.length < 16) : Gen.Fn.t3_rd_csum d = .error .struct := by
+  unfold Gen.Fn.t3_rd_csum
+  rw [show (14 : Int) = ((14 : Nat) : Int) from rfl, show (16 : Int) = ((16 : Nat) : Int) from rfl, slice_nat,
+    show (2 : Int) = ((2 : Nat) : Int) from rfl, needExact_nat]
+  have : (sliceN d 14 16).length ≠ 2 := by simp [sliceN]; omega
+  simp [this]
+
+example : Gen.Fn.t3_wr_attr 0x10 4 1 13 0 1 5 = .ok [0x10, 4, 1, 0, 13, 0, 0, 0, 0, 0, 1, 0, 0, 5, 0, 0x28] := by decide +kernel
+example : Gen.Fn.t3_polling_rsp 0 (List.replicate 18 1) = .error (.tagCmd 4) := by rfl
+
+/-! ## Type 1 memory reader: which commands fill the cache -/
+
+theorem t1_need_rall_bridge (n : Nat) : Gen.Fn.t1_need_rall n = decide (n < 120) := by
+  unfold Gen.Fn.t1_need_rall; py_bits
+theorem t1_need_block15_bridge (stop n : Nat) : Gen.Fn.t1_need_block15 stop n = decide (stop > 120 ∧ n < 128) := by
+  unfold Gen.Fn.t1_need_block15; py_bits
+theorem t1_rall_short_bridge (r : Bytes) : Gen.Fn.t1_rall_short r = decide (r.length < 2) := by
+  unfold Gen.Fn.t1_rall_short; py_bits
+theorem t1_rall_hdr_bridge (r : Bytes) : Gen.Fn.t1_rall_hdr r = r.take 2 := by
+  unfold Gen.Fn.t1_rall_hdr
+  have := slice_nat r 0 2
+  simpa [sliceN] using this
+theorem t1_rall_mem_bridge (r : Bytes) : Gen.Fn.t1_rall_mem r = r.drop 2 := sliceFrom_ofNat r 2
+
+/-- `Adv.stageA` / `Adv.stageB` (C08) with the regenerated conditions and answer split -/
+theorem gen_stageA (t : Adv.Tag) (uid : Bytes) (s : Adv.S1) :
+    Adv.stageA t uid s =
+      if Gen.Fn.t1_need_rall s.cache.length then
+        match Adv.trans1 t (Gen.Fn.t1_read_all_cmd uid) s with
+        | (.error e, s1) => (.error e, s1)
+        | (.ok rsp, s1) =>
+          if Gen.Fn.t1_rall_short rsp then (.error (.tagCmd 2), s1)
+          else (.ok (), { s1 with hdr := Gen.Fn.t1_rall_hdr rsp, cache := Gen.Fn.t1_rall_mem rsp })
+      else (.ok (), s) := by
+  rw [stageA_cmd, t1_need_rall_bridge, t1_read_all_cmd_bridge]
+  simp only [t1_rall_short_bridge, t1_rall_hdr_bridge, t1_rall_mem_bridge, decide_eq_true_eq]
+  rfl
+
+theorem gen_stageB_cond (t : Adv.Tag) (uid : Bytes) (stop : Nat) (s1 : Adv.S1) (h : Gen.Fn.t1_need_block15 stop s1.cache.length = false) :
+    Adv.stageB t uid stop s1 = (.ok (), s1) := by
+  rw [t1_need_block15_bridge] at h
+  rw [stageB_cmd, if_neg (by simpa using h)]
+
+/-! ## Type 2 `protect()`: Lock Control TLV fields and the default dynamic lock bits (C03) -/
+
+/-- first lock byte from the value of a Lock Control TLV (`Tlv.protWalk`: `specFirst d0 d2`) -/
+theorem t2_lock_first_bridge (v : Bytes) :
+    Gen.Fn.t2_lock_first v = (idxN v 0 >>= fun d0 => idxN v 2 >>= fun d2 => .ok ((Tlv.specFirst d0 d2 : Nat) : Int)) := by
+  unfold Gen.Fn.t2_lock_first Tlv.specFirst
+  rw [show (0 : Int) = ((0 : Nat) : Int) from rfl, show (2 : Int) = ((2 : Nat) : Int) from rfl, getB_idxN, getB_idxN]
+  cases idxN v 0 with
+  | error e => rfl
+  | ok d0 =>
+    simp only [Py.bind_ok]
+    cases idxN v 2 with
+    | error e => rfl
+    | ok d2 =>
+      simp only [Py.bind_ok]
+      py_bits
+
+/-- number of lock bits (`specBits d1`) -/
+theorem t2_lock_bits_bridge (v : Bytes) :
+    Gen.Fn.t2_lock_bits v = (idxN v 1 >>= fun d1 => .ok ((Tlv.specBits d1 : Nat) : Int)) := by
+  unfold Gen.Fn.t2_lock_bits Tlv.specBits
+  rw [show (1 : Int) = ((1 : Nat) : Int) from rfl, getB_idxN]
+  cases idxN v 1 with
+  | error e => rfl
+  | ok d1 =>
+    simp only [Py.bind_ok]
+    by_cases h : d1 = 0
+    · subst h; simp
+    · have : ((d1 : Int) > 0) := by omega
+      simp [h, this]
+
+example : Gen.Fn.t2_lock_first [0xA0, 0x10, 0x44] = .ok 160 ∧ Gen.Fn.t2_lock_bits [0xA0, 0x00, 0x44] = .ok 256 := by decide +kernel
+
+/-- default dynamic lock bits (`Tlv.defaultLocks`) -/
+theorem t2_lock_default_cond_bridge (sz nlock : Nat) : Gen.Fn.t2_lock_default_cond sz nlock = decide (sz > 6 ∧ nlock = 0) := by
+  unfold Gen.Fn.t2_lock_default_cond; py_bits
+theorem t2_lock_default_addr_bridge (sz : Nat) : Gen.Fn.t2_lock_default_addr ((sz * 8 : Nat) : Int) = ((16 + sz * 8 : Nat) : Int) := by
+  unfold Gen.Fn.t2_lock_default_addr; omega
+theorem t2_lock_default_bits_bridge (sz : Nat) (h : sz > 6) :
+    Gen.Fn.t2_lock_default_bits ((sz * 8 : Nat) : Int) = (((sz * 8 - 48 + 7) / 8 : Nat) : Int) := by
+  unfold Gen.Fn.t2_lock_default_bits; omega
+
+/-- C03 `defaultLocks` with the regenerated arithmetic -/
+theorem gen_defaultLocks (sz : Nat) (found : List (Nat × Nat)) :
+    Tlv.defaultLocks sz found =
+      if Gen.Fn.t2_lock_default_cond sz found.length then
+        [((Gen.Fn.t2_lock_default_addr ((sz * 8 : Nat) : Int)).toNat, (Gen.Fn.t2_lock_default_bits ((sz * 8 : Nat) : Int)).toNat)]
+      else found := by
+  unfold Tlv.defaultLocks
+  rw [t2_lock_default_cond_bridge]
+  by_cases h : sz > 6 ∧ found = []
+  · have h2 : sz > 6 ∧ found.length = 0 := ⟨h.1, by rw [h.2]; rfl⟩
+    rw [if_pos h, if_pos (by simpa using h2), t2_lock_default_addr_bridge, t2_lock_default_bits_bridge sz h.1]
+    simp only [Int.toNat_natCast]
+  · have h2 : ¬ (sz > 6 ∧ found.length = 0) := by
+      intro hc; exact h ⟨hc.1, List.eq_nil_of_length_eq_zero hc.2⟩
+    rw [if_neg h, if_neg (by simpa using h2)]
+
+/-- lock bytes and bits (`Tlv.setAllLocks`: `(b + 7) / 8` bytes; `Tlv.lockByteVal`: bit `i` lives in byte `i >> 3`) -/
+theorem t2_lock_byte_size_bridge (b : Nat) : Gen.Fn.t2_lock_byte_size b = (((b + 7) / 8 : Nat) : Int) := by
+  unfold Gen.Fn.t2_lock_byte_size; omega
+theorem t2_lock_byte_index_bridge (a i : Nat) : Gen.Fn.t2_lock_byte_index a i = ((a + i / 8 : Nat) : Int) := by
+  unfold Gen.Fn.t2_lock_byte_index; py_bits
+theorem t2_lock_bit_bridge (i : Nat) : Gen.Fn.t2_lock_bit i = ((2 ^ (i % 8) : Nat) : Int) := by
+  unfold Gen.Fn.t2_lock_bit; py_bits; omega
+
 /-! ## Type 3 Tag emulation (`Type3TagEmulation`, model `T3Emu`, C07) -/
 section emulation
 
@@ -1050,6 +1298,46 @@ theorem gen_t2_phase2 (s : Skip) (sk : List Int) (h : SameSkip s sk) (fuel : Nat
     obtain ⟨hl, h14⟩ := place_below t2Cfg s data m1 (off + hdrLen data.length) m' a' 14 hp (by omega)
     simp only [Py.bind_ok]
     rw [t2_term_bridge s sk h fuel hf m' data _ a' (by omega) (by omega), h14]
+
+/-! ### the three octet length field across write units (`Tlv.phase3a`, `Tlv.phase3`; C02) -/
+
+theorem t2_len_pages_bridge (off : Nat) :
+    Gen.Fn.t2_len_pages off = [(((off + 1) / 4 : Nat) : Int), (((off + 2) / 4 : Nat) : Int), (((off + 3) / 4 : Nat) : Int)] := by
+  unfold Gen.Fn.t2_len_pages
+  simp only [List.map_cons, List.map_nil]
+  py_bits
+
+theorem t2_len_split_bridge (a b c : Nat) :
+    Gen.Fn.t2_len_split [(a : Int), (b : Int), (c : Int)] = .ok (decide (a ≠ b ∧ b = c)) := by
+  unfold Gen.Fn.t2_len_split
+  have i0 : idx [(a : Int), (b : Int), (c : Int)] 0 = .ok (a : Int) := by simp [idx]
+  have i1 : idx [(a : Int), (b : Int), (c : Int)] 1 = .ok (b : Int) := by simp [idx]
+  have i2 : idx [(a : Int), (b : Int), (c : Int)] 2 = .ok (c : Int) := by simp [idx]
+  simp only [i0, i1, i2, Py.bind_ok]
+  by_cases h1 : a = b
+  · subst h1; simp
+  · have h1' : ¬ ((a : Int) = (b : Int)) := by omega
+    by_cases h2 : b = c
+    · subst h2; simp [h1, h1']
+    · have h2' : ¬ ((b : Int) = (c : Int)) := by omega
+      simp [h1, h1', h2, h2']
+
+/-- the decision of `Tlv.phase3a` for the Type 2 write unit (4 octets): the marker `FF` alone in the first page, both
+length octets together in the next one -/
+theorem gen_phase3a_split (off : Nat) :
+    (Gen.Fn.t2_len_split (Gen.Fn.t2_len_pages off)) =
+      .ok (decide ((off + 1) / Tlv.t2Cfg.unit ≠ (off + 2) / Tlv.t2Cfg.unit ∧ (off + 2) / Tlv.t2Cfg.unit = (off + 3) / Tlv.t2Cfg.unit)) := by
+  rw [t2_len_pages_bridge, t2_len_split_bridge]; rfl
+
+/-- the two length octets (`Tlv.phase3`: `n / 256`, `n % 256`) -/
+theorem t2_nlen_bridge (data : Bytes) :
+    Gen.Fn.t2_nlen data = if data.length > 65535 then .error .struct else .ok [data.length / 256, data.length % 256] := by
+  unfold Gen.Fn.t2_nlen
+  rw [len_eq, PyFn.pack, packField_Hbe]
+  by_cases h : data.length > 65535 <;> simp [h, PyFn.pack]
+
+example : Gen.Fn.t2_len_split (Gen.Fn.t2_len_pages 18) = .ok true ∧ Gen.Fn.t2_len_split (Gen.Fn.t2_len_pages 16) = .ok false := by
+  decide +kernel
 
 /-! ### NDEF reader: one TLV -/
 
